@@ -529,6 +529,14 @@ class Builder:
             short = name.split("::")[-1]
             if name not in WINNOW_COMB:
                 return N("opaque", e, src=src(e), why="unmodelled winnow combinator " + name)
+            node = self._pe_winnow(e, env, short, args)
+            if isinstance(node, dict) and node.get("t") != "opaque":
+                node = dict(node, comb=short)
+            return node
+        return self._pe_call_local(e, env, f, args)
+
+    def _pe_winnow(self, e, env, short, args):
+        if True:
             if short == "alt":
                 if len(args) == 1 and args[0]["k"] == "tuple":
                     return N("alt", e, alts=[self.pe(a, env) for a in args[0]["elems"]])
@@ -601,6 +609,9 @@ class Builder:
                 if rg is None or a["k"] != "lit":
                     return N("opaque", e, src=src(e))
                 return N("until", e, min=rg[0], max=rg[1], s=a["v"])
+        return N("opaque", e, src=src(e), why="winnow combinator %s not handled" % short)
+
+    def _pe_call_local(self, e, env, f, args):
         # local function returning a parser: quote_delimiter()
         rf = self._resolve_fn_path(f, env)
         if rf and not args:
